@@ -8,9 +8,21 @@
 //              the upper words 0x00000000 / 0xffffffff; the lower word is mid-cell so a canonical
 //              is never exactly 0) followed by the fixed splitmix tail:
 //              value inside the documented support, finite, #canonicals <= justified bound.
+//              A third pass (Z4) forces lower word 0 and the upper words {0, 2^30, 2^31, 3*2^30}:
+//              canonicals 0, 1/4, 1/2, 3/4 EXACTLY (exact-zero canonical, dyadic ties), only for the
+//              families whose documented support is closed at 0 (see build_support_cases, end).
+//              rotate(): a wrong polar angle is reported per branch class of the incident direction
+//              (rotate:wrong-polar-angle[renorm,y<0 | renorm,y>=0 | on-axis | generic]) so that the
+//              recorded renormalising-branch defect does not mask anything else.
+//              Energy loss: e-, e+, mu-, p and alpha (charge 2): model choice (exact ties decided
+//              by the documented operator), the helper's beta^2 / 2 m_e beta^2 gamma^2 / Tmax / Bohr
+//              variance against a long double re-derivation, the Urban constructor's mean-loss
+//              identity in every branch, operator() == loss_scaling*(excitation + ionisation stage).
 //  quadrature  deterministic quadrature: the midpoint lattice {(i+1/2)/2^b_j} of the first
 //              canonicals is pushed through the sampler, the empirical CDF is compared with the
-//              analytic CDF (independent long double code below) in sup norm.
+//              analytic CDF (independent long double code below) in sup norm.  The Urban model is
+//              judged stage by stage (each branch of sample_fast_urban / sample_excitation_loss /
+//              sample_ionization_loss whose law is explicit) given the constructor's outputs.
 //              threshold = L + H + 2/N,
 //                L = sum_j c_j / 2^b_j   lattice term: a set whose boundary consists of c_j
 //                                        coordinate-monotone pieces meets at most c_j*N/2^b_j
@@ -187,8 +199,9 @@ struct ElossWorld
     CollectionStateStore<ParticleStateData, MemSpace::host> pstate;
     CollectionStateStore<MaterialStateData, MemSpace::host> mstate;
     std::vector<std::string> mat_names{"H2gas", "Ar", "Pb"};
-    std::vector<std::string> par_names{"e-", "e+", "mu-", "p"};
-    std::vector<double> par_mass{0.5109989461, 0.5109989461, 105.6583745, 938.272081};
+    std::vector<std::string> par_names{"e-", "e+", "mu-", "p", "alpha"};
+    std::vector<double> par_mass{0.5109989461, 0.5109989461, 105.6583745, 938.272081, 3727.379};
+    std::vector<double> par_charge{-1, 1, -1, 1, 2};
 
     ElossWorld()
     {
@@ -207,7 +220,8 @@ struct ElossWorld
             {"electron", pdg::electron(), MevMass{par_mass[0]}, ElementaryCharge{-1}, constants::stable_decay_constant},
             {"positron", pdg::positron(), MevMass{par_mass[1]}, ElementaryCharge{1}, constants::stable_decay_constant},
             {"mu_minus", pdg::mu_minus(), MevMass{par_mass[2]}, ElementaryCharge{-1}, constants::stable_decay_constant},
-            {"proton", pdg::proton(), MevMass{par_mass[3]}, ElementaryCharge{1}, constants::stable_decay_constant}};
+            {"proton", pdg::proton(), MevMass{par_mass[3]}, ElementaryCharge{1}, constants::stable_decay_constant},
+            {"alpha", pdg::alpha(), MevMass{par_mass[4]}, ElementaryCharge{2}, constants::stable_decay_constant}};
         particles = std::make_shared<ParticleParams>(std::move(pi));
         for (double cut : {1e-3, 10.0})
         {
@@ -231,6 +245,7 @@ struct Obs
     std::string const& cid;
     std::string const& cname;
     std::vector<uint32_t> const& script;
+    uint32_t lower = kMidCell;  // lower word of the scripted canonicals
     std::vector<char const*> tags;
     uint64_t outcome = 1469598103934665603ull;
 
@@ -239,7 +254,8 @@ struct Obs
         std::string s = cname + " script=[";
         for (size_t i = 0; i < script.size(); ++i)
             s += fmt("%s0x%08x", i ? "," : "", script[i]);
-        s += "] (canonical_i=(word_i+0.5)/2^32, then tail)";
+        s += lower == kMidCell ? "] (canonical_i=(word_i+0.5)/2^32, then tail)"
+                               : "] (canonical_i=word_i/2^32 EXACTLY (lower word 0), then tail)";
         return s;
     }
     void tag(char const* t) { tags.push_back(t); }
@@ -270,6 +286,7 @@ struct SupportCase
     std::string name;
     int max_script;  // the body never draws more canonicals than this (0: unbounded) -> k_eff
     std::function<void(Eng&, Obs&, uint64_t k)> body;  // k = number of forced canonicals
+    bool closed_at_zero = false;  // documented support is closed at canonical == 0: runs in the exact-dyadic pass
 };
 
 static std::vector<SupportCase> build_support_cases(ElossWorld& W, bool thorough)
@@ -617,6 +634,14 @@ static std::vector<SupportCase> build_support_cases(ElossWorld& W, bool thorough
             {"z=1-2^-53,x=y=0", {0, 0, 1 - 1.1102230246251565e-16}},
             {"just-inside-renormalising-branch", unit(0.004L, -0.002L, 1)},
             {"just-outside", unit(0.006L, -0.003L, 1)},
+            // near-axis letters OFF the recorded defect (y > 0): the renormalising branch must be
+            // right to the tight tolerance there, in both hemispheres
+            {"near+z,x<0,y>0", unit(-1e-3L, 2e-3L, 1)},
+            {"near-z,x>0,y>0", unit(2e-3L, 1e-3L, -1)},
+            {"near-z,h=5e-6,x<0,y>0", unit(-3e-6L, 4e-6L, -1)},
+            // between the double (0.005) and float (0.07) thresholds, y < 0, both hemispheres
+            {"h=0.036(generic-branch),y<0,-z", unit(0.03L, -0.02L, -1)},
+            {"h=0.036(generic-branch),y<0,+z", unit(-0.03L, -0.02L, 1)},
             {"generic", unit(1, 2, 3)},
             {"+x", {1, 0, 0}},
             {"-y", {0, -1, 0}},
@@ -647,8 +672,14 @@ static std::vector<SupportCase> build_support_cases(ElossWorld& W, bool thorough
                 if ((h == 0 && std::fabs(rot[2]) == 1.0) || h >= 1e-7L)
                 {
                     ld tol = 1e-14L + (h > 0 ? 4e-16L / (h * h) : 0);
+                    // signature: one per branch class of the incident direction, so that the recorded
+                    // defect (renormalising branch, y < 0: sign of sin(phi) lost) does not mask a wrong
+                    // polar angle anywhere else
+                    char const* cls = (h > 0 && h < 0.005L) ? (rot[1] < 0 ? "renorm,y<0" : "renorm,y>=0")
+                                      : h == 0              ? "on-axis"
+                                                            : "generic";
                     if (!(fabsl(dot - ct) <= tol))
-                        o.fail("rotate:wrong-polar-angle",
+                        o.fail(fmt("rotate:wrong-polar-angle[%s]", cls),
                                fmt("incident=(%.17g,%.17g,%.17g) cos theta=%.17g phi=%.17g: out.incident=%.17Lg (diff %.3Lg, tol %.3Lg)",
                                    rot[0], rot[1], rot[2], ct, phi, dot, dot - ct, tol));
                 }
@@ -910,7 +941,29 @@ static std::vector<SupportCase> build_support_cases(ElossWorld& W, bool thorough
         // ionisation: one fast Gaussian (632) + Poisson(8 xs/(xs+8) < 8) (120) + one uniform per
         // ionisation (<= 120)
         uint64_t const urban_per_call = 2 * 121 + 632 + 632 + 120 + 120;
-        auto tag_urban = [](EnergyLossUrbanDistribution const& d, Obs& o) {
+        auto tag_urban = [](EnergyLossUrbanDistribution const& d, Obs& o, double unscaled_mean_loss) {
+            // The model's defining identity (PRM Eq. 7.10/7.11, class comment "keeping the mean loss
+            // the same"): in EVERY constructor branch the expected loss of the three processes,
+            // rescaled, is the requested mean loss:
+            //   loss_scaling (Sigma_1 E_1 + Sigma_2 E_2 + Sigma_3 E0 ln(Tmax/E0) Tmax/(Tmax-E0)) = <dE>
+            // (excitation carries (1-r), ionisation r - or everything when excitation is off; the
+            // width correction multiplies E_1 and divides Sigma_1 by the same factor).  Rounding: a
+            // dozen double operations, and f_1 ln E_1 + f_2 ln E_2 = ln I holds to ~1e-15 relative in
+            // the stored parameters, amplified by |ln I|/(w - w_0) <~ 1e3 on this lattice: 1e-9.
+            {
+                ld const e0 = 1e-5L, tmax = d.max_energy_;
+                ld const exc = ld(d.xs_exc_[0]) * d.binding_energy_[0] + ld(d.xs_exc_[1]) * d.binding_energy_[1];
+                ld const ion = ld(d.xs_ion_) * e0 * logl(tmax / e0) * tmax / (tmax - e0);
+                ld const total = ld(d.loss_scaling_) * (exc + ion);
+                ld const rel = fabsl(total - unscaled_mean_loss) / unscaled_mean_loss;
+                o.R.maxi("urban_ctor_mean_identity_relerr_1e-18", uint64_t(double(rel) * 1e18));
+                if (!(rel <= 1e-9L))
+                    o.fail("eloss-urban:constructor-mean-loss-identity",
+                           fmt("loss_scaling(%.17g) * (xs_exc.E = %.17Lg + xs_ion<E> = %.17Lg) = %.17Lg but the "
+                               "requested mean loss is %.17g (xs_exc=(%g,%g) E=(%g,%g) xs_ion=%g Tmax=%g)",
+                               d.loss_scaling_, exc, ion, total, unscaled_mean_loss, d.xs_exc_[0], d.xs_exc_[1],
+                               d.binding_energy_[0], d.binding_energy_[1], d.xs_ion_, d.max_energy_));
+            }
             double const e0 = 1e-5;
             for (int i = 0; i < 2; ++i)
             {
@@ -929,11 +982,22 @@ static std::vector<SupportCase> build_support_cases(ElossWorld& W, bool thorough
                 o.tag("urban:width-correction-max");
             (void)e0;
         };
-        auto sample_urban = [urban_per_call, tag_urban](EnergyLossUrbanDistribution& d, Eng& e, Obs& o, uint64_t k) {
-            tag_urban(d, o);
+        auto sample_urban = [urban_per_call, tag_urban](EnergyLossUrbanDistribution& d, Eng& e, Obs& o, uint64_t k,
+                                                        double unscaled_mean_loss) {
+            tag_urban(d, o, unscaled_mean_loss);
             for (int c = 0; c < 2; ++c)
             {
+                // operator() is loss_scaling * (excitation stage + ionisation stage) on the same word
+                // stream (the stages are judged against their analytic laws in part "quadrature"; the
+                // order in which the two operands of '+' are evaluated is the compiler's choice)
+                Eng e1 = e, e2 = e;
+                double const exc1 = d.sample_excitation_loss(e1), ion1 = d.sample_ionization_loss(e1);
+                double const ion2 = d.sample_ionization_loss(e2), exc2 = d.sample_excitation_loss(e2);
                 double x = d(e).value();
+                if (x != d.loss_scaling_ * (exc1 + ion1) && x != d.loss_scaling_ * (exc2 + ion2))
+                    o.fail("eloss-urban:not-scaled-sum-of-stages",
+                           fmt("operator() = %.17g but loss_scaling (%.17g) * (excitation %.17g + ionisation %.17g) = %.17g",
+                               x, d.loss_scaling_, exc1, ion1, d.loss_scaling_ * (exc1 + ion1)));
                 o.value(x);
                 o.finite(x, "eloss-urban");
                 o.draws_le(e, k + (c + 1) * urban_per_call, "eloss-urban");
@@ -947,17 +1011,10 @@ static std::vector<SupportCase> build_support_cases(ElossWorld& W, bool thorough
         std::vector<double> energies = {3e-5, 1e-3, 1e-2, 1.0, 100.0, 1e4};
         std::vector<double> losses = {5e-6, 2e-5, 1e-3, 0.1, 5.0};
         std::vector<double> steps = {1e-4, 1e-2, 1.0};
-        for (int ip = 0; ip < 4; ++ip)
-            for (int im = 0; im < 3; ++im)
-                for (double E : energies)
-                    for (double loss : losses)
-                        for (double step : steps)
-                            for (int ic = 0; ic < 2; ++ic)
+        // one helper-driven case
+        auto add_eloss = [&](int ip, int im, double E, double loss, double step, int ic) {
                             {
-                                if (loss > E)
-                                    continue;
-                                if (!thorough && ((ip + im + ic) % 2 || step == 1e-4))
-                                    continue;
+                            {
                                 ElossWorld* w = &W;
                                 add("eloss",
                                     fmt("%s,%s,E=%g,loss=%g,step=%g,cut=%g", W.par_names[ip].c_str(),
@@ -986,16 +1043,26 @@ static std::vector<SupportCase> build_support_cases(ElossWorld& W, bool thorough
                                         ld const e0 = 1e-5L;
                                         ld const nel = w->materials->get(MaterialId(im)).electron_density();
                                         ld const re = constants::r_electron;
-                                        ld const bohr = 2 * kPi * re * re * me * nel * tc * ld(step * units::centimeter) * (1 / bsq - 0.5L);
+                                        ld const q = w->par_charge[ip];
+                                        ld const bohr = 2 * kPi * re * re * me * nel * q * q * tc * ld(step * units::centimeter) * (1 / bsq - 0.5L);
                                         auto near = [](ld a, ld b) { return fabsl(a - b) <= 1e-9L * fmaxl(fabsl(a), fabsl(b)); };
+                                        // Exact ties: where both sides of a documented comparison are
+                                        // BIT-IDENTICAL doubles (plain input letters, no computed quantity
+                                        // involved) the documented operator decides - G4UniversalFluctuation:
+                                        // "meanLoss < minLoss -> no fluctuation", "meanLoss >= 10 tcut (and
+                                        // tmax <= 2 tcut) -> Gaussian/gamma", i.e. Urban iff loss < 10 Tc.
+                                        // Merely close values (computed Tmax, Bohr variance) are skipped.
+                                        bool const tie_e0 = (loss == 1e-5);
+                                        bool const tc_is_cut = tmax > ld(w->cut_value[ic]) * (1 + 1e-6L);
+                                        bool const tie_kappa = tc_is_cut && (10.0 * w->cut_value[ic] == loss);
                                         int want = -1;  // -1: too close to a regime boundary to call
-                                        if (near(loss, e0) || near(tc, e0))
+                                        if ((!tie_e0 && near(loss, e0)) || near(tc, e0))
                                             want = -1;
-                                        else if (loss < e0 || tc <= e0)
+                                        else if ((!tie_e0 && loss < e0) || tc <= e0)
                                             want = int(Model::none);
-                                        else if (near(loss, 10 * tc) || near(tmax, 2 * tc))
+                                        else if ((!tie_kappa && near(loss, 10 * tc)) || near(tmax, 2 * tc))
                                             want = -1;
-                                        else if (mr >= 1 || loss < 10 * tc || tmax > 2 * tc)
+                                        else if (mr >= 1 || (!tie_kappa && loss < 10 * tc) || tmax > 2 * tc)
                                             want = int(Model::urban);
                                         else if (near(ld(loss) * loss, 4 * bohr))
                                             want = -1;
@@ -1006,6 +1073,35 @@ static std::vector<SupportCase> build_support_cases(ElossWorld& W, bool thorough
                                                    fmt("helper chose model %d, documented rules give %d (Tmax=%Lg Tc=%Lg "
                                                        "bohr_var=%Lg mass_ratio=%Lg)",
                                                        int(model), want, tmax, tc, bohr, mr));
+                                        if (tie_e0 && want >= 0)
+                                            o.tag("eloss:exact-tie:loss==E0");
+                                        if (tie_kappa && want >= 0)
+                                            o.tag("eloss:exact-tie:loss==10Tc");
+                                        if (model != Model::none)
+                                        {
+                                            // the helper's precalculated quantities against the re-derivation
+                                            // above.  Rounding model: beta^2 = 1 - (m/(E+m))^2 is formed in
+                                            // double with an absolute error of ~2 ulp(1), i.e. a relative error
+                                            // 2e-16/beta^2 that all four quantities inherit; a dozen further
+                                            // operations: 1e-12.
+                                            ld const tol = 1e-12L + 2e-15L / bsq;
+                                            struct Cmp
+                                            {
+                                                char const* what;
+                                                ld got, want;
+                                            };
+                                            Cmp const cmps[] = {{"beta_sq", helper.beta_sq(), bsq},
+                                                                {"two_mebsgs", value_as<units::MevMass>(helper.two_mebsgs()), two_mebsgs},
+                                                                {"max_energy", value_as<MevEnergy>(helper.max_energy()), tc},
+                                                                {"bohr_variance", helper.bohr_variance().value(), bohr}};
+                                            for (Cmp const& c : cmps)
+                                                if (!(fabsl(c.got - c.want) <= tol * fabsl(c.want)))
+                                                    o.fail(fmt("eloss:helper-%s", c.what),
+                                                           fmt("helper.%s() = %.17Lg, re-derived %.17Lg (rel. diff %.3Lg, tol %.3Lg; charge %Lg)",
+                                                               c.what, c.got, c.want, (c.got - c.want) / c.want, tol, q));
+                                            if (q * q != 1)
+                                                o.tag("eloss:charge^2!=1");
+                                        }
                                         switch (model)
                                         {
                                             case Model::none: {
@@ -1053,12 +1149,43 @@ static std::vector<SupportCase> build_support_cases(ElossWorld& W, bool thorough
                                             case Model::urban: {
                                                 o.tag("eloss:model=urban");
                                                 EnergyLossUrbanDistribution d(helper);
-                                                sample_urban(d, e, o, k);
+                                                sample_urban(d, e, o, k, loss);
                                                 break;
                                             }
                                         }
                                     });
                             }
+                            }
+        };
+        for (int ip = 0; ip < 5; ++ip)
+            for (int im = 0; im < 3; ++im)
+                for (double E : energies)
+                    for (double loss : losses)
+                        for (double step : steps)
+                            for (int ic = 0; ic < 2; ++ic)
+                            {
+                                if (loss > E)
+                                    continue;
+                                if (!thorough && ((ip + im + ic) % 2 || step == 1e-4))
+                                    continue;
+                                add_eloss(ip, im, E, loss, step, ic);
+                            }
+        // exact regime ties (plain letters): loss == E0 = 1e-5 (helper line "mean_loss < min_energy"),
+        // loss == 10 Tc with Tc = cut = 1e-3 (0.001 * 10 == 0.01 in double); the latter decides only
+        // when Tmax is in (Tc, 2 Tc]: mu- at 0.08 MeV (Tmax = 1.55 keV), p at 0.7 MeV (1.53 keV),
+        // alpha at 2.8 MeV (1.54 keV)
+        for (int ip = 0; ip < 5; ++ip)
+            for (int im = 0; im < 3; ++im)
+            {
+                if (!thorough && (ip + im) % 2)
+                    continue;
+                for (double E : {1e-3, 1.0})
+                    for (int ic = 0; ic < 2; ++ic)
+                        add_eloss(ip, im, E, 1e-5, 1e-2, ic);
+                for (double E : {0.08, 0.7, 2.8})
+                    for (double step : {1e-2, 1.0})
+                        add_eloss(ip, im, E, 1e-2, step, 0);
+            }
         // Urban through its public constructor, to reach the branches the helper cannot produce
         struct U
         {
@@ -1080,8 +1207,27 @@ static std::vector<SupportCase> build_support_cases(ElossWorld& W, bool thorough
                 material = {MaterialId(u.mat)};
                 EnergyLossUrbanDistribution d(w->fluct->host_ref(), material, units::MevEnergy{u.loss},
                                               units::MevEnergy{u.tmax}, units::MevMass{u.two_mebsgs}, u.bsq);
-                sample_urban(d, e, o, k);
+                sample_urban(d, e, o, k, u.loss);
             });
+        }
+    }
+    // Families whose documented support is closed at canonical == 0 (u in [0,1)): they also run in the
+    // exact-dyadic pass (u = 0, 1/4, 1/2, 3/4 exactly; exact ties u*total == partial sum for the dyadic
+    // selector weights).  NOT in this set, on purpose: exponential / normal / gamma / Poisson(lambda>16) /
+    // everything built on them (log(0), u^(1/alpha) = 0: the unmodified samplers return inf / 0 there,
+    // probability 2^-64 per draw), rejection (f = 0 is "accepted" by u = 0 < 0 being false only), the
+    // rotate / from_spherical letters (not samplers), canonical:scripted-path (asserts u > 0).
+    for (auto& c : C)
+    {
+        static char const* const fams[] = {"bernoulli", "selector", "uniform", "box", "radial",
+                                           "isotropic", "invsquare", "reciprocal"};
+        for (char const* f : fams)
+            if (c.family == f)
+                c.closed_at_zero = true;
+        if (c.family == "poisson")
+        {
+            double l = std::atof(c.name.c_str() + std::string("poisson:lambda=").size());
+            c.closed_at_zero = (l > 0 && l <= 16);
         }
     }
     return C;
@@ -1098,6 +1244,8 @@ static void run_support(vf::Run& R, ElossWorld& W)
         char const* id;
         std::vector<uint32_t> A;
         int k;
+        uint32_t lower = kMidCell;  // lower word of scripted canonicals
+        bool only_closed_at_zero = false;
     };
     std::vector<uint32_t> A9 = vf::alphabet_u7();
     A9.push_back(0x20000000u);
@@ -1107,16 +1255,19 @@ static void run_support(vf::Run& R, ElossWorld& W)
     {
         passes.push_back({"A7k6", vf::alphabet_u7(), 6});
         passes.push_back({"A9k4", A9, 4});
+        passes.push_back({"Z4k4", {0x00000000u, 0x40000000u, 0x80000000u, 0xc0000000u}, 4, 0u, true});
     }
     else
     {
         passes.push_back({"A5k4", vf::alphabet_u5(), 4});
         passes.push_back({"A9k3", A9, 3});
+        passes.push_back({"Z4k3", {0x00000000u, 0x40000000u, 0x80000000u, 0xc0000000u}, 3, 0u, true});
     }
     auto cases = build_support_cases(W, thorough);
     R.note("support:alphabet",
-           fmt("passes %s and %s; lower word 0x%08x (canonical=(upper+1/2)/2^32); %zu sampler cases", passes[0].id,
-               passes[1].id, kMidCell, cases.size()));
+           fmt("passes %s and %s with lower word 0x%08x (canonical=(upper+1/2)/2^32); pass %s with lower word 0 "
+               "(canonical = 0, 1/4, 1/2, 3/4 EXACTLY) for the families whose support is closed at 0; %zu sampler cases",
+               passes[0].id, passes[1].id, kMidCell, passes[2].id, cases.size()));
     std::map<std::string, uint64_t> fam_max;
     uint64_t outer = 0;
     for (Pass const& P : passes)
@@ -1131,6 +1282,8 @@ static void run_support(vf::Run& R, ElossWorld& W)
                 if (R.expired())
                     break;
                 SupportCase const& c = cases[ic];
+                if (P.only_closed_at_zero && !c.closed_at_zero)
+                    continue;
                 // helper-driven eloss cases are the numerous and expensive ones: one letter less
                 int Kc = (P.k == 6 && c.family == "eloss") ? 5 : P.k;
                 int const k = c.max_script ? std::min(Kc, c.max_script) : Kc;
@@ -1155,8 +1308,8 @@ static void run_support(vf::Run& R, ElossWorld& W)
                         script[j] = A[r % nA];
                         r /= nA;
                     }
-                    Eng e(script, mix64(seed0 + idx), kMidCell);
-                    Obs o{R, cid, c.name, script};
+                    Eng e(script, mix64(seed0 + idx), P.lower);
+                    Obs o{R, cid, c.name, script, P.lower};
                     c.body(e, o, uint64_t(k));
                     maxc = std::max<uint64_t>(maxc, e.canonicals());
                     uint64_t combo = 0;
@@ -1757,25 +1910,29 @@ static std::vector<QuadCase> build_quad_cases(ElossWorld& W, bool thorough)
                              [=](double x) { return gamma_p(k, ld(x) * k / m); }, 16);
             });
         }
-        // through the helper (mu- 10 keV in Ar, as in the unit test): Bohr variance re-derived here
+        // through the helper (mu- 10 keV in Ar, as in the unit test; alpha 1 MeV: charge 2, the Bohr
+        // variance carries q^2): Bohr variance re-derived here
+        for (auto pe : std::vector<std::pair<int, double>>{{2, 1e-2}, {4, 1.0}})
         for (double step : {5e-4, 5e-2})
         {
             ElossWorld* w = &W;
-            add("eloss", fmt("helper:mu-,Ar,E=0.01,loss=0.1,step=%g", step), [=](Quad& Q) {
+            int const ip = pe.first;
+            double const Ekin = pe.second;
+            add("eloss", fmt("helper:%s,Ar,E=%g,loss=0.1,step=%g", W.par_names[ip].c_str(), Ekin, step), [=](Quad& Q) {
                 using units::MevEnergy;
                 ParticleTrackView particle(w->particles->host_ref(), w->pstate.ref(), TrackSlotId{0});
-                particle = {ParticleId(2), MevEnergy{1e-2}};
+                particle = {ParticleId(ip), MevEnergy{Ekin}};
                 MaterialTrackView material(w->materials->host_ref(), w->mstate.ref(), TrackSlotId{0});
                 material = {MaterialId(1)};
                 CutoffView cutoff(w->cutoffs[0]->host_ref(), MaterialId(1));
                 EnergyLossHelper helper(w->fluct->host_ref(), cutoff, material, particle, MevEnergy{0.1},
                                         step * units::centimeter);
-                ld const me = 0.5109989461L, M = w->par_mass[2], E = 1e-2L;
+                ld const me = 0.5109989461L, M = w->par_mass[ip], E = Ekin, q = w->par_charge[ip];
                 ld const gam = 1 + E / M, bsq = 1 - 1 / (gam * gam), mr = me / M;
                 ld const tmax = 2 * me * bsq * gam * gam / (1 + mr * (2 * gam + mr));
                 ld const nel = w->materials->get(MaterialId(1)).electron_density();
                 ld const re = constants::r_electron;
-                ld const var = 2 * kPi * re * re * me * nel * tmax * ld(step * units::centimeter) * (1 / bsq - 0.5L);
+                ld const var = 2 * kPi * re * re * me * nel * q * q * tmax * ld(step * units::centimeter) * (1 / bsq - 0.5L);
                 ld const m = 0.1L, s = sqrtl(var);
                 if (helper.model() == EnergyLossFluctuationModel::gaussian)
                 {
